@@ -1,4 +1,7 @@
 """Bounded stand-ins and engine cross-checks: the spec functions executed against the real
 functions over stated universes.  Labelled bounded in evidence, never counted as proved."""
 
-MONITORS = {}
+MONITORS = {
+    "C01": ["monitors.c01"],
+    "C02": ["monitors.c02"],
+}
